@@ -22,9 +22,11 @@ from harness.C07 import gen, oracle
 
 try:
     from tools.gen import wait as gen_wait
+    from tools.gen import waitcb as gen_waitcb
     from tools.gen.csrc import ExtractError
 except ImportError:          # translator not present yet
     gen_wait = None
+    gen_waitcb = None
 
     class ExtractError(Exception):
         pass
@@ -138,6 +140,7 @@ def run(ctx, only=None):
     quick = ctx.tier == "quick"
     broken = []
     cfg = None
+    cbd = None
     wake = {}
     # ------------------------------------------------------------------ build
     try:
@@ -151,9 +154,18 @@ def run(ctx, only=None):
         try:
             cfg = gen_wait.extract(tree)
             ctx.gen("Wait.lean", gen_wait.render(cfg))
-            wake = gen_wait.wake_sites(tree)
         except ExtractError as e:
             broken.append("translator tools/gen/wait.py: %s" % e)
+            ctx.broken.append(broken[-1])
+        # listener callbacks as case tables + every janet_schedule* / janet_cancel call site (classified and checked by Lean)
+        try:
+            cbd = gen_waitcb.extract(tree)
+            ctx.gen("WaitCb.lean", gen_waitcb.render(cbd))
+            for f, fn, callee, lis, attr in cbd["sites"]:
+                k = f + ":" + fn + ("" if attr == fn else " (part of %s)" % attr)
+                wake[k] = wake.get(k, 0) + 1
+        except ExtractError as e:
+            broken.append("translator tools/gen/waitcb.py: %s" % e)
             ctx.broken.append(broken[-1])
     # ------------------------------------------------------------------ (B, C) theorems
     if THEOREMS:
@@ -202,7 +214,7 @@ def run(ctx, only=None):
         d, n = sc.meta.get("dirt", "none"), sc.meta.get("nest", "none")
         if mode == "normal":
             return d != "r1"
-        if mode == "early":
+        if mode in ("early", "gc"):
             return d == "none" and n in ("none", "try")
         return d in ("none", "r3") and n in ("none", "try", "defer+try")
     items = [(s.id, s.janet()) for s in allsc if in_mode(s, "normal")]
@@ -214,7 +226,12 @@ def run(ctx, only=None):
     # Ticks are then not predictable: value-only oracle; scenarios whose B races its own deadline against the driver are left out
     late_items = [(s.id, s.janet()) for s in allsc if s.meta.get("B") != "dl" and in_mode(s, "late")]
     res_late = run_scenarios(hx, late_items, extra=["--late", "2"], tag="l")
-    evaluations = len(items) + len(early_items) + len(late_items)
+    # gc mode: a full collection at every poll of the loop: the collector delivers JANET_ASYNC_EVENT_MARK to the callback of every
+    # listening fiber between any two events.  Same oracle as the normal mode (exact ticks) AND the log must be identical to the
+    # normal mode's log line by line (threaded awaits left out: the order of their real-time completions is not part of the log)
+    gc_items = [(s.id, s.janet()) for s in allsc if in_mode(s, "gc")]
+    res_gc = run_scenarios(hx, gc_items, extra=["--gc"], tag="g")
+    evaluations = len(items) + len(early_items) + len(late_items) + len(gc_items)
     # ------------------------------------------------------------------ (D) correspondence with the model
     ndiff, ncorr, diffs = 0, 0, []
     exe = ctx.driver() if (THEOREMS and HAVE_DRIVER) else None
@@ -244,7 +261,23 @@ def run(ctx, only=None):
     # ------------------------------------------------------------------ (E) direct oracle on the implementation
     found = collections.OrderedDict()     # sig -> (scenario, what, mode)
     counts = collections.Counter()
-    for mode, rr in (("normal", res), ("early-wake", res_early), ("late-wake", res_late)):
+    ngcdiff = 0
+    for sid, _ in gc_items:
+        s = byid[sid]
+        if sid in res and sid in res_gc and not s.thrs and s.meta.get("A") != "accept" and res[sid]["status"] == "ok":
+            la = [l for l in res[sid]["lines"] if not l.startswith("K ")]
+            lb = [l for l in res_gc[sid]["lines"] if not l.startswith("K ")]
+            if la != lb or res_gc[sid]["status"] != "ok":
+                ngcdiff += 1
+                k = 0
+                while k < len(la) and k < len(lb) and la[k] == lb[k]:
+                    k += 1
+                counts["collection-changed-the-run"] += 1
+                if "collection-changed-the-run" not in found:
+                    found["collection-changed-the-run"] = (s, "a garbage collection at every poll (mark visit of every listening fiber's callback) changed the "
+                                                              "event log at line %d: without %r, with %r (status %s)" % (
+                                                                  k, la[k:k + 1], lb[k:k + 1], res_gc[sid]["status"]), "gc", res_gc[sid])
+    for mode, rr in (("normal", res), ("early-wake", res_early), ("late-wake", res_late), ("gc", res_gc)):
         for s in allsc:
             if s.id not in rr:
                 continue
@@ -304,14 +337,20 @@ def run(ctx, only=None):
         "rule": "one evaluation = one generated janet program run in the real event loop under the virtual clock (normal and "
                 "early-wake mode); non-trivial = distinct program text; matrix = every (A kind, abandon kind, fire kind, B kind)",
         "samples": [items[0][0], items[len(items) // 2][0], items[-1][0]],
-        "matrix_scenarios": len(scs), "runs_by_clock_mode": {"normal": len(items), "early-wake": len(early_items), "late-wake": len(late_items)},
+        "matrix_scenarios": len(scs), "runs_by_clock_mode": {"normal": len(items), "early-wake": len(early_items), "late-wake": len(late_items),
+                                                               "gc-every-poll": len(gc_items)},
+        "gc_mode_log_differences": ngcdiff,
+        "listener_callbacks": {c["name"]: {"file": c["file"], "groups": [{"labels": g["ev"] + (["default"] if g["default"] else []),
+                                                                            "calls": g["acts"]} for g in c["groups"]], "after_switch": c["post"]}
+                               for c in (cbd["callbacks"] if cbd else [])},
+        "ev_callback_deliveries": ["%s:%s %s" % (f, fn, ev[0]) for f, fn, ev in (cbd["deliveries"] if cbd else [])],
         "random_scenarios": len(rnd), "deadline_scope_scenarios": len(dls), "corpus": len(corpus),
         "sleep_checks": sl_checked, "real_clock_sleeps": rn,
         "distribution": dict(sorted(dist.items())), "scenario_endings": dict(endings),
         "oracle_failures_by_signature": dict(counts),
         "correspondence_scenarios": ncorr, "correspondence_diffs": ndiff,
         "site_configuration": cfg,
-        "wake_up_sites": {k: "%d call(s): %s" % (v[1], v[0]) for k, v in sorted(wake.items())},
+        "wake_up_sites": {k: "%d call(s)" % v for k, v in sorted(wake.items())},
     }
     return ctx.finish("proof", cov, assumptions=[
         "kernel (epoll readiness, pipes, process reaping) and time are inputs of the model; stream / process waits are proved on "
@@ -329,7 +368,7 @@ def replay(ctx, path):
         hx = ctx.build.harness("plain", "c07evwrap", [os.path.join(VERIF, "harness/C07/evwrap.c")])
         mode = str(r.get("mode"))
         res = run_scenarios(hx, [(r.get("scenario", "replay"), r["janet"])],
-                            extra=["--early"] if "early" in mode else (["--late", "2"] if "late" in mode else []), tag="r")
+                            extra=["--early"] if "early" in mode else (["--late", "2"] if "late" in mode else (["--gc"] if mode == "gc" else [])), tag="r")
         for v in res.values():
             print("\n".join(v["lines"]))
             print("status:", v["status"])
